@@ -507,8 +507,10 @@ func (w *world) mutBlock(m *aMsg) string {
 		}
 	}
 	if m.Block != nil {
-		b := *m.Block
-		b.Bad = []uint64{uint64(w.r.Intn(w.n))}
+		// a block some member's validator rejects. It is another block (another id, hence another hash): two blocks with one
+		// hash that validators judge differently would be a collision of the consumer's hash, which the properties exclude
+		w.byzBlocks++
+		b := aBlock{Height: m.Block.Height, Id: 2000000 + w.byzBlocks, Bad: []uint64{uint64(w.r.Intn(w.n))}}
 		m.Block = &b
 		return "block.rejected-by-one"
 	}
